@@ -245,7 +245,7 @@ NATIVE_TWINS = {
     'C08': ('c08_minimax_model', None,
             '9 positions x depths 1..3 with a fresh context, 4 games x 8 plies at depth 3 with one reused context, and one context through 16 unrelated positions (values far apart in both directions, both sides to move) at depths 2 and 3; 5 forced-mate games x depths 3, 4 with one reused context (the same mated position met at different remaining depths): reported score == unpruned uncached reference minimax, returned move attains it'),
     'C10': ('c10_perft_model', None,
-            '7 positions (incl. a stalemated root, a checkmated root, mate in one) x depths 0..3 x rayon pools {1,2,3,4,7,16} x fresh/reused generator: count_positions == reference count (20, 420, 9322, 206603 from the start position), board unchanged'),
+            '7 positions (incl. a stalemated root, a checkmated root, mate in one) x depths 0..3 x rayon pools {1,2,3,4,7,16} x fresh/reused generator: count_positions == reference count (20, 420, 9322, 206603 from the start position), board unchanged; ONE generator through 7 related roots x both sides to move x depths 0..2 x 2 rounds: every figure == a fresh reference count'),
     'C11': ('c11_attack_geometry', None,
             'EXHAUSTIVE for rook and bishop over every subset of the relevance mask on every square (102,400 + 5,248 cases); queen / knight / king x 64 squares x 24 pseudo-random blocker sets; pawns of both colours x 48 squares: the reported attack map equals the walked geometry (no wrap-around, rays stop at the first blocker)'),
     'C18': ('c18_score_model', None,
@@ -255,8 +255,8 @@ NATIVE_TWINS = {
     # not a bounded twin but an EXHAUSTIVE evaluation of this build's book data (C15, second sentence); run in both tiers
     'C15:book': ('c15_book_lines', None,
                  'EXHAUSTIVE for the data of this build: every path of the compiled opening book and every line of opening_lines.txt'),
-    'C15': ('c14_c15_game_model', ['engine_move_is_a_legal_move_whenever_one_exists'],
-            '5 positions (incl. supplied ones) x 8 engine selections at depth 2: a legal move, never an error, board unchanged'),
+    'C15': ('c14_c15_game_model', ['engine_move_is_a_legal_move_whenever_one_exists', 'engine_move_is_legal_when_the_book_reply_is_only_pseudo_legal'],
+            '5 positions (incl. supplied ones) x 8 engine selections at depth 2: a legal move, never an error, board unchanged; 3 supplied positions / histories in which the book reply is only pseudo-legal (mover in check, pinned pawn) x 12 selections'),
 }
 
 
